@@ -52,7 +52,10 @@ def run(chk):
                     for st in n.body:
                         if isinstance(st, ast.Assign) and isinstance(st.targets[0], ast.Subscript):
                             key, val = U(st.targets[0].slice), U(st.value)
-                            if key == n.target.id and val == f"partial({w.args.args[0].arg}, {n.target.id})" and U(n.iter) == fn.args.args[0].arg:
+                            it = n.iter
+                            if isinstance(it, ast.Call) and isinstance(it.func, ast.Name) and it.func.id in ("tuple", "list", "set", "sorted") and len(it.args) == 1:
+                                it = it.args[0]
+                            if key == n.target.id and val == f"partial({w.args.args[0].arg}, {n.target.id})" and U(it) == fn.args.args[0].arg:
                                 ok = True
         chk.require("C05.R1", f"{mi.rel}:{fn.lineno}", ok, f"{name} stores partial(handler, op) under each listed op", name, "registration decorator", "every registered op: handler receives the wrong op or is stored under another key")
     chk.ok("C05.R1", "registries", f"{len(hs['qbytes'])} QBytes handlers / {n_ops} ops, {len(hs['qbits'])} QBits handlers, {len(hs['qfunc'])} function wrappers extracted")
